@@ -136,6 +136,16 @@ def build_world(tape, tier):
                             {"strand": combiners.first_of}]):
         W.add("combine", dict(cd), "initial", f"combine{i}")
     W.add("cnr", objs["cnr_clean"], "initial", "cnr_clean")
+    for name, kind in (("ref_nomask", "ref"), ("ref_alt", "ref"), ("tcov_b", "tcov"), ("acov_b", "acov"),
+                       ("cnr_mirror", "cnr"), ("cnr_chr1", "cnr")):
+        W.add(kind, objs[name], "initial", name)
+    if tape.chance(1, 2, "w.arms_table"):
+        # a ratio table with a planted centromere, equal-sized arms and a second arm-sized gap in
+        # one arm (sim.gen_bins): per-arm fan-out and anything keyed on an arm's shape
+        from sim import gen_bins as GB
+        W.add("cnr", GB.make_cna(GB.gen_cnr(tape, tier, max_chroms=2, size_classes=[(50, 1), (400, 1)],
+                                            label="w.arms", force_mirror_arms=True), "S1"),
+              "initial", "cnr_arms")
     W.add("sizes", dict(info["chrom_sizes"]), "initial", "chrom_sizes")
     W.add("thresholds", [-1.1, -0.25, 0.2, 0.7], "initial", "thresholds")
     return W, info
@@ -543,7 +553,8 @@ def run_shuffle(o, p, procs):
 def ch_cna_method(W, t, info):
     which = t.choice(["smooth_log2", "residuals", "squash_genes", "drop_low_coverage", "guess_xx",
                       "shift_xx", "expect_flat_log2", "compare_sex", "autosomes", "by_chromosome",
-                      "drop_extra_columns", "sort_columns", "add_concat", "nexus_basic"], "cm.which")
+                      "drop_extra_columns", "sort_columns", "add_concat", "nexus_basic", "filter_noop",
+                      "filter_gene"], "cm.which")
     ents = [W.pick(t, "cnr", "tcov", "cns", label="cm.arg")]
     p = {"which": which, "hapx": t.chance(1, 2, "cm.hapx"),
          "parx": t.choice([None, "grch38"], "cm.parx"), "segments": False}
@@ -583,6 +594,10 @@ def run_cna_method(o, p, procs):
         c = a.copy()
         c.sort_columns()
         return c
+    if w == "filter_noop":
+        return a.filter()
+    if w == "filter_gene":
+        return a.filter(gene=str(a["gene"].iat[0])) if "gene" in a and len(a) else a.filter()
     if w == "nexus_basic":
         from cnvlib import export
         return export.export_nexus_basic(a)
@@ -893,9 +908,65 @@ def run_history(tape, tier, opts):
                 ctx.probe("hist.echo")
                 if stochastic and pert2 != "none":
                     ctx.probe("rng.perturbed_before_stochastic")
+            # swap: the same step with one argument replaced by a sibling of the same kind
+            # (checked against the pristine process), then the original call once more --
+            # what a cache keyed too coarsely gets wrong
+            if tape.chance(1, 3, "hist.swap"):
+                cand = [(i, sib) for i, e in enumerate(ents) for sib in W.of(e.kind)
+                        if sib.id != e.id and e.kind != "cnsfile"]
+                if cand:
+                    i, sib = cand[tape.draw(len(cand), "hist.swap_which")]
+                    ents_b = list(ents)
+                    ents_b[i] = sib
+                    got_b = D.canon(_guarded(OPS[opname][1], [e.obj for e in ents_b], params, None))
+                    want_b = ref.eval((opname, params, [e.snap for e in ents_b]))
+                    d = D.diff(got_b, want_b)
+                    if d:
+                        raise Violation("R1", f"C10/R1/{opname}/swap",
+                                        f"{opname}({', '.join(e.name for e in ents_b)}; {pdesc}) right after the "
+                                        f"same step on ({', '.join(e.name for e in ents)}) differs from the "
+                                        f"pristine-process result: {d}")
+                    got_c = D.canon(_guarded(OPS[opname][1], objs, params, None))
+                    d = D.diff(got_c, got)
+                    if d:
+                        raise Violation("R1", f"C10/R1/{opname}/swap_back",
+                                        f"{opname}({', '.join(e.name for e in ents)}; {pdesc}) differs from its own "
+                                        f"first result after the same step ran on ({', '.join(e.name for e in ents_b)}): {d}")
+                    _check_args(W, D, opname + "(swap)", step)
+                    ctx.probe("hist.swap")
             for o, e in zip(objs, ents):
                 if result is o:
                     ctx.probe("result_is_argument." + opname)
+            # scribble: an in-place array method on the RESULT (a column assignment and a meta
+            # entry, both undone at once) must not reach any object of the world -- the step's
+            # arguments are no longer even passed to that method
+            if (getattr(result, "data", None) is not None and hasattr(result, "meta") and len(result)
+                    and not any(result is e.obj for e in W.entries) and tape.chance(1, 2, "hist.scribble")):
+                try:
+                    result["_scribble"] = 1
+                    result.meta["_scribble"] = 1
+                except Exception:  # noqa: BLE001
+                    pass
+                else:
+                    try:
+                        _check_args(W, D, opname, step)
+                    except Violation as v:
+                        raise Violation("A2", f"C10/A2/{opname}/{v.key.rsplit('/', 1)[-1]}",
+                                        f"an in-place column assignment on the array RETURNED by {opname}("
+                                        f"{', '.join(e.name for e in ents)}; {pdesc}) changed an object of the "
+                                        f"world: {v.message}")
+                    result.data = result.data.drop(columns=["_scribble"])
+                    result.meta.pop("_scribble", None)
+                    ctx.probe("hist.scribble")
+            rdata = getattr(result, "data", None)
+            if rdata is not None:
+                for e in W.entries:
+                    if e.obj is not result and getattr(e.obj, "data", None) is rdata:
+                        # not a violation of the property (the step left its argument alone), but
+                        # an in-place edit of the result would now reach the argument
+                        ctx.probe("alias.result_shares_frame." + opname)
+                        ctx.note(f"{opname}: the returned array wraps the very DataFrame object of its {e.kind} argument "
+                                 f"(an in-place edit of the result would reach the argument)")
             kind = OPS[opname][2]
             if kind and not isinstance(result, Exception):
                 W.add(kind, result, f"step{step}", f"{opname}@{step}")
